@@ -105,4 +105,14 @@ TEXT = {
         note="Trusted: the collision oracle (code or nonce or non-zero slot). With the has_storage finding open, storage-only collisions are effective only on a database that overrides has_storage (RefDB); the evidence lists the holders.",
         technique="runtime monitoring: exhaustive directed sweep of a finite configuration product with a reference oracle",
     ),
+    "C22": dict(
+        level="Held on every twin execution observed: reward-less Evm (handler flag or CfgEnv switch) versus reward-paying Evm under identical random reconfiguration sequences; after every transaction results and all non-beneficiary accounts are equal and the beneficiary gap equals the sum of rewards, so the disabled twin never received fees.",
+        note="Trusted: the reward formula (effective price - base fee) x gas_used and equality of revm's result types. The Optimism vault clause runs in the op lane (C33).",
+        technique="runtime monitoring: differential twin execution under random reconfiguration sequences",
+    ),
+    "C31": dict(
+        level="Held on every step sequence observed: one reused Evm versus a fresh Evm per step over identically evolving databases, with rejections, reverts, halts, preverify/transact variants, spec changes and injected database faults; results and databases equal and the reused instance pristine after every call.",
+        note="Trusted: RefDB and its applier (same for both twins). Leak probes: TLOAD-before-TSTORE, cold EXTCODESIZE gas, Prague-only precompile.",
+        technique="runtime monitoring: differential execution (reused vs fresh instance) with fault injection at the Database boundary and a post-call state invariant",
+    ),
 }
